@@ -86,7 +86,32 @@ class Addition:
         # dropped: no path reaches it
         v_yes = cond.explore(root, [head], [(pred, pol)], stop={self.bb})
         v_no = cond.explore(root, [head], [(pred, not pol)], stop={self.pull})
-        return v_yes is not None and v_no is not None and self.bb in v_yes and self.pull not in v_yes and (filt_no or self.bb not in v_no)
+        if v_yes is None or v_no is None:
+            return False
+        # neither case may END the iteration over the source (a `break` where `continue` was meant drops every later element):
+        # the only edges that leave the loop are the error exits of `?`
+        comp = next((c for c in b.sccs() if self.pull in c), None)
+        if comp is not None:
+            v_after = cond.explore(root, [self.bb], [(pred, pol)], stop={self.pull})
+            for vis in (v_no, v_yes, v_after or set()):
+                for x in vis & comp:
+                    if x == self.pull:
+                        continue
+                    for y in b.succ(x):
+                        if y not in comp and not self._is_try_break(root, b, x, y):
+                            return False
+        return self.bb in v_yes and self.pull not in v_yes and (filt_no or self.bb not in v_no)
+
+    @staticmethod
+    def _is_try_break(root, b, x, y):
+        t = b.blocks[x]["term"]
+        if t["k"] != "switch":
+            return False
+        d = root.op(t["discr"])
+        if not (d[0] == "discr" and d[1][0] == "call" and isinstance(d[1][1], str) and core.callee_base(d[1][1]) == "core::ops::Try::branch"):
+            return False
+        cont = [tb for val, tb in t["targets"] if val == 0]
+        return bool(cont) and y != cont[0]
 
 
 def _pipeline(S, a, site, b):
